@@ -5,7 +5,11 @@ from vmon.oracle import geometry as G
 
 CELL_CLASSES = ["ortho", "tri+++", "tri++-", "tri+-+", "tri+--", "tri-++", "tri-+-", "tri--+", "tri---", "tri_minimal", "ortho_minimal",
                 "upper_tri", "general_tri", "rotated_ortho", "left_handed", "ortho_big", "tri_big", "tri_unreduced"]
-POSES = ["random", "identity", "rot90", "rot180", "axis_parallel", "axis_antiparallel", "axis_near_antiparallel", "axis_antiparallel_exact", "identity_exact", "slightly_tilted", "slightly_tilted_exact"]
+POSES = ["random", "identity", "rot90", "rot180", "axis_parallel", "axis_antiparallel", "axis_near_antiparallel", "axis_antiparallel_exact", "identity_exact", "slightly_tilted", "slightly_tilted_exact",
+         "sign_twin_exact", "near_twin_exact"]
+# sign_twin / near_twin: orientations RELATED to the previous copy's - the same quaternion with the sign of one or more of its vector
+# components changed (the inverse turn, or the same turn about a mirrored axis: symmetry-related sites of a crystal), respectively
+# the previous orientation tilted by 0.05 to 2 degrees (a relaxed structure); the first copy of a structure gets a random pose
 
 
 def make_cell(rng, cls, need):
@@ -193,11 +197,26 @@ def build(rng, pattern, cell_cls, atol, n_copies=2, crossings=None, poses=None, 
             tags.append(tag)
         return list(range(start, start + len(pos)))
 
+    last_R = [None]
     for k in range(n_copies):
         pose = poses[k % len(poses)]
         placed = None
         for _ in range(30):
-            R = pose_rotation(rng, pose, ppos, cell)
+            if pose.startswith(("sign_twin", "near_twin")):
+                if last_R[0] is None:
+                    R = G.random_rotation(rng) if rng.integers(2) else G.rotation_about(np.eye(3)[int(rng.integers(3))], rng.uniform(0.2, 3.0))
+                elif pose.startswith("sign_twin"):
+                    from scipy.spatial.transform import Rotation as _Rot
+                    q = _Rot.from_matrix(last_R[0]).as_quat()
+                    flip = rng.integers(0, 2, 3)
+                    if not flip.any():
+                        flip[int(rng.integers(3))] = 1
+                    q[:3] *= np.where(flip, -1.0, 1.0)
+                    R = _Rot.from_quat(q).as_matrix()
+                else:
+                    R = G.rotation_about(rng.normal(size=3), np.radians(10 ** rng.uniform(-1.3, 0.3))).dot(last_R[0])
+            else:
+                R = pose_rotation(rng, pose, ppos, cell)
             rot = ppos.dot(R.T)
             placed = place(rng, cell, rot, crossings[k % len(crossings)], positions, min_sep, on_face=(pose == "random" and rng.integers(6) == 0))
             if placed is not None:
@@ -209,6 +228,7 @@ def build(rng, pattern, cell_cls, atol, n_copies=2, crossings=None, poses=None, 
         delta = delta / np.maximum(np.linalg.norm(delta, axis=1, keepdims=True), 1e-12) * rng.uniform(0, perturb * atol, (len(pos), 1))
         if pose.endswith("_exact"):
             delta = delta * 0.0     # the exactly (anti)parallel branches of the rotation helpers need an unperturbed copy
+        last_R[0] = R
         planted.append(add_group(pos + delta, pels, "copy%d" % k))
         measured.append(m)
         used_poses.append(pose)
